@@ -4,7 +4,7 @@ import treegen, lexgen
 
 PID = "C05"
 TARGETS = ["Run.vo", "Tree_proofs.vo"]
-IMPORTS = "From VF Require Import Base Show Gen_Errors Lexer Response Tree Scripted Run."
+IMPORTS = "From VF Require Import Base Show Gen_Errors Lexer Response Conv Tree Scripted Run."
 ALLOWED_AXIOMS = []
 PROFILES = ["debug"]
 RULE = ("messages of 1..6 units on random trees; a failure is injected at a random unit position and of a random kind: "
